@@ -235,6 +235,9 @@ def main(ck):
     for mode in ('rows', 'range'):
         for shape in GA.FRAME_SHAPES * (1 if q else 6):
             cases.append(g.case(fn=ck.rng.choice(GA.AGG), shape=shape, mode=mode))
+    for fn in ('sum', 'count', 'max', 'first_value', 'last_value', 'avg') * (1 if q else 4):        # no window clause
+        for lv in ('each', 'calc'):
+            cases.append(g.case(fn=fn, level=lv, nowindow=True))
     while len(cases) < n_main:
         cases.append(g.case())
     side = [g.no_order_each() for _ in range(6 if q else 40)]
